@@ -206,6 +206,10 @@ def run(ck):
         if s == 1:
             energies = [12285.0 + rng.randint(-20, 20), 12038.0 + rng.randint(-20, 20), 12176.0 + rng.randint(-20, 20)]
         dipoles = [[rng.uniform(-1, 1) for _ in range(3)] for _ in range(n)]
+        if s % 4 in (2, 3):
+            # hand-written directions as scripts use them: components that add up to zero, axis-parallel, in a coordinate plane
+            special = [[1.0, -1.0, 0.0], [1.0, 1.0, -2.0], [0.0, 1.0, -1.0], [2.0, -1.0, -1.0], [0.0, 0.0, 1.0], [-1.0, 0.0, 1.0]]
+            dipoles = [list(map(float, special[(s + k_) % len(special)])) for k_ in range(n)]
         widths = rng.sample([100.0, 150.0, 220.0, 300.0], n)            # a different width on every molecule
         coupled = s % 2 == 0
         couplings = {(i, j): rng.choice([40.0, -90.0, 150.0]) for i in range(n) for j in range(i + 1, n)} if coupled else {}
